@@ -896,6 +896,19 @@ err_mfn:
 	return set_read_error(ctx, status, "Xen map", pos);
 }
 
+/** Convert a Xen P2M field from dump byte order to host byte order.
+ * @param shared  Dump file shared data.
+ * @param x       Value in dump file byte order.
+ * @returns       Value in host byte order.
+ */
+static inline uint64_t
+xen_p2m_toh(struct kdump_shared *shared, uint64_t x)
+{
+	return sget_byte_order(shared) == KDUMP_BIG_ENDIAN
+		? be64toh(x)
+		: le64toh(x);
+}
+
 static addrxlat_status
 addrxlat_read_error(addrxlat_ctx_t *ctx, const char *what, off_t offset)
 {
@@ -933,7 +946,8 @@ xc_p2m_first_step(addrxlat_step_t *step, addrxlat_addr_t addr)
 	if (status != KDUMP_OK)
 		return addrxlat_read_error(step->ctx, "p2m entry", pos);
 
-	step->base.addr = p2m.gmfn << shared->page_shift.number;
+	step->base.addr = xen_p2m_toh(shared, p2m.gmfn)
+		<< shared->page_shift.number;
 	step->idx[0] = addr & (shared->page_size.number - 1);
 	step->remain = 1;
 	step->elemsz = 1;
@@ -969,7 +983,8 @@ xc_m2p_first_step(addrxlat_step_t *step, addrxlat_addr_t addr)
 	if (status != KDUMP_OK)
 		return addrxlat_read_error(step->ctx, "m2p entry", pos);
 
-	step->base.addr = p2m.pfn << shared->page_shift.number;
+	step->base.addr = xen_p2m_toh(shared, p2m.pfn)
+		<< shared->page_shift.number;
 	step->idx[0] = addr & (shared->page_size.number - 1);
 	step->remain = 1;
 	step->elemsz = 1;
